@@ -45,7 +45,13 @@ CONFIG = {
         "The Go oracle states the property on the real values (glyph i IS the listed glyph; dictionaries dropped / once / first-use order; "
         "composites re-pointed to the same glyph and the same resolved outline; closure exact; cmap exact through independent format 4 / "
         "12 readers; Write + Read of the subset against Write + Read of the original) and that Subset modifies none of its arguments (deep "
-        "hash over everything reachable incl. spare slice capacity, FDSelect sampled, the caller's glyph list with sentinels behind it)."
+        "hash over everything reachable incl. spare slice capacity, FDSelect sampled, the caller's glyph list with sentinels behind it). "
+        "The subset is observed twice: right after the call and again after the harness has OVERWRITTEN every slice it handed in (glyph list "
+        "and extras with their spare capacity: other valid glyph ids, another order, or garbage); the two observations must agree "
+        "(c10-subset-retains-caller-memory), and the observation compared with the model and every oracle clause use the second one. Last, "
+        "the entries of the original's Glyphs / Private / FontMatrices / GIDToCID / Encoding / Widths / Names slices, its FDSelect function, "
+        "ROS pointer and cmap entries are replaced and the subset must still be the same (c10-subset-retains-original-slices; the *Glyph / "
+        "*PrivateDict values, glyph byte slices, Tables and Maxp stay shared as documented)."
     ),
     "level_note": (
         "Trusted for this part: the translator kinds of translators/gen/kind_c10b.go, the Go harness harness/c10b (builders, projection "
